@@ -216,6 +216,7 @@ func (m *monitor) hook(_ *sim.View, ev *sim.Event) {
 
 // exec is one simulated cluster with the real establisher of the revision controller.
 type exec struct {
+	intruded bool // a third party acts during the current op
 	c        *kit.Ctx
 	caseName string
 	desc     any
@@ -567,6 +568,12 @@ func (x *exec) establish(revName string, control bool) opResult {
 		}
 	}
 	x.report(r.log)
+	if x.intruded {
+		// the cluster was changed by a third party during the call: predictions made from the
+		// state before the call do not apply; only the per-write monitors judge this call
+		x.count("establish_with_intruder", 1)
+		return r
+	}
 
 	if x.judgeRefusal(revName, role, r.refused, real, r.err, r.log) {
 		return r
